@@ -3,12 +3,12 @@ from common import *
 SPEC = dict(
     id="C16", corr="Corr.C16", driver="h_c16", overlay=False,
     targets=["Properties/C16.vo", "Corr/C16.vo"],
-    args=lambda tier, seed: (["-seed", seed, "-n", 3000] if tier == "quick"
-                             else ["-seed", seed, "-n", 100000, "-exhbytes", 3, "-exhlen", 3]),
+    args=lambda tier, seed: (["-seed", seed, "-n", 3000, "-exhbytes", 2, "-exhlen", 1] if tier == "quick"
+                             else ["-seed", seed, "-n", 60000, "-exhbytes", 3, "-exhlen", 3]),
     search_args=lambda seed: ["-seed", seed, "-n", 6000],
     shard=400,
     patterns={},
-    rule="seeded random histories over the real pkg/buffer: VectorisedView over 0-10 chunks (sub-slices with spare capacity, 1/4 of the chunks empty, distinct byte values) x up to 12 operations TrimFront/CapLength (counts -1..size+3, biased to chunk boundaries), RemoveFirst, Clone (nil / too-small / exactly-fitting / roomy buffer) over the original and up to two clones, observing Views() bytes+caps, Size, ToView, First of every live object after every step; single Views under TrimFront/CapLength/NextBytes/re-slices with in-range and out-of-range counts (panics recovered); Prependable Prepend+fill sequences incl. refused and negative sizes; thorough adds every chunking of <=3 bytes in <=3 chunks x every operation sequence of length <=3. A case is non-trivial when it has at least one operation and (VV) at least one byte; tags 1-4 VV (clone/cap combinations), 5-6 View (with/without panic), 7-8 Prependable; distinct = distinct case lines",
+    rule="seeded random histories over the real pkg/buffer: VectorisedView over 0-10 chunks (sub-slices with spare capacity, 1/4 of the chunks empty, distinct byte values) x up to 12 operations TrimFront/CapLength (counts -1..size+3, biased to chunk boundaries), RemoveFirst, Clone (nil / too-small / exactly-fitting / roomy buffer) over the original and up to two clones, observing Views() bytes+caps, Size, ToView, First of every live object after every step; single Views under TrimFront/CapLength/NextBytes/re-slices with in-range and out-of-range counts (panics recovered); Prependable Prepend+fill sequences incl. refused and negative sizes; an exhaustive part runs first: every chunking of <=B bytes in <=3 chunks x every sequence of <=L operations TrimFront/CapLength n (n=-1..size+1), RemoveFirst on every live object and one Clone (nil / exactly fitting buffer) (quick B=2 L=1, thorough B=3 L=3). A case is non-trivial when it has at least one operation and (VV) at least one byte; tags 1-4 VV (clone/cap combinations), 5-6 View (with/without panic), 7-8 Prependable; distinct = distinct case lines",
     trusted_base=[KERNEL, CORR_TB, "Print Assumptions: every C16 theorem is closed under the global context (no axioms)",
                   "modelled, not verified: pkg/buffer/view.go, prependable.go (hand-written Gallina model Model/Buffer.v, tied by the differential run)",
                   "Go slice semantics (bounds checks of s[i:j:k], append writing in place when the capacity suffices) as written into the model; the driver's raw re-slice cases test them against the Go runtime"],
